@@ -291,3 +291,124 @@ def replay_cex(cls, steps, workdir):
     bdir = vlib.build(4)
     exs = vlib.replay(bdir, 'lockh', [cls], prog, sched, workdir, tag='cex')
     return (exs[0] if exs else None), prog
+
+
+# ------------------------------------------------------------------------------------------------
+# IDManager: B1 conformance (IdImplTrace), B4 exit order, M (IdImpl)
+# ------------------------------------------------------------------------------------------------
+def id_stream(ex, prog_line):
+    """flag operations of one execution for IdImplTrace; returns (events, exit-order observations, ok)"""
+    hashes = {}
+    for tok in prog_line.split():
+        if tok.startswith('hash='):
+            for i, h in enumerate(tok[5:].split(',')):
+                hashes[i + 1] = int(h)
+    base = None
+    last_x = {}
+    for e in ex.events:
+        if e.get('e') == 'op' and e.get('site', '').startswith('id_manager.cpp') and e['k'] == 'xchg' and e['b'] == '0':
+            last_x[e['t']] = int(e['loc'][1:], 16)
+        elif e.get('e') == 'id' and base is None and e['t'] in last_x:
+            base = last_x[e['t']] - e['id']
+    if base is None:
+        return [], [], False
+    out = []
+    obs = []
+    started = set()
+    ok = True
+    for e in ex.events:
+        k = e.get('e')
+        t = e.get('t', 0)
+        if k == 'idcall' and t not in started:
+            started.add(t)
+            out.append({'e': 'start', 't': t, 'h': hashes.get(t, t)})
+        elif k == 'op' and e.get('site', '').startswith('id_manager.cpp'):
+            if not e['loc'].startswith('@'):
+                ok = False
+                continue
+            i = int(e['loc'][1:], 16) - base
+            if e['k'] == 'load':
+                out.append({'e': 'ld', 't': t, 'i': i, 'v': int(e['a'], 16)})
+            elif e['k'] == 'xchg':
+                out.append({'e': 'xc', 't': t, 'i': i, 'v': int(e['b'], 16)})
+            elif e['k'] == 'store':
+                out.append({'e': 'st', 't': t, 'i': i, 'x': -1})
+            else:
+                ok = False
+        elif k == 'exitop':
+            for o in reversed(out):
+                if o['e'] == 'st' and o['t'] == t and o['x'] == -1:
+                    o['x'] = e['x']
+                    obs.append(e['x'])
+                    break
+        elif k == 'id':
+            out.append({'e': 'got', 't': t, 'id': e['id']})
+        elif k in ('tend', 'texit'):
+            out.append({'e': k, 't': t})
+    return out, obs, ok
+
+
+ID_L2_FIELDS = ('t', 'h', 'i', 'v', 'id', 'x')
+
+
+def id_conformance(n, tier, seed=0):
+    import checks
+    bdir = vlib.build(n)
+    key = 'idconf|%s|%d|%s|%s' % (os.path.basename(bdir), n, tier, _spec_hash())
+    cp = _cache_path('idconf', key)
+    if os.path.exists(cp):
+        return json.load(open(cp))
+    workdir = os.path.join(OUT, 'work', 'l2_id%d' % n)
+    os.makedirs(workdir, exist_ok=True)
+    progs = checks.id_programs(n, tier)
+    ptext = {p.split()[1]: p for p in progs}
+    files = vlib.run_harness(bdir, 'threadh', [], progs, workdir, mode='dfs', pb=2, max_exec=1500 if tier == 'quick' else 20000,
+                             seed=seed, tag='idconf')
+    execs = [e for f in files for e in vlib.iter_execs(f) if e.status == 'ok']
+    obs_all = set()
+
+    def proj(ex):
+        st, obs, ok = id_stream(ex, ptext[ex.prog])
+        if not ok:
+            return []
+        obs_all.update(obs)
+        return [dict({'e': e['e']}, **{f: e.get(f, -1) for f in ID_L2_FIELDS}) for e in st]
+    groups = [g for g in vlib.dedup_histories(execs, proj) if g[0]]
+    hists = [g[0] for g in groups]
+    reps = [g[1] for g in groups]
+    order = 'hb_first' if obs_all == {1} else ('flag_first' if obs_all == {0} else 'mixed')
+    res = {'n': n, 'exit_order': order, 'streams': len(hists), 'executions': len(execs), 'ok': False, 'rejected': [], 'states': 0,
+           'transitions': 0, 'events': 0}
+    if order != 'mixed' and hists:
+        cfg = vlib.write_cfg(os.path.join(SPEC, 'cfg', 'IdImplTrace.tpl.cfg'), {'N': n, 'ExitOrder': order},
+                             os.path.join(workdir, 'idconf.cfg'))
+        rej, st = vlib.validate_until_clean(os.path.join(SPEC, 'IdImplTrace.tla'), cfg, hists, workdir, 'idconf', max_rounds=2)
+        res.update(ok=not rej, states=st['distinct'], transitions=st['states'], events=st['events'],
+                   rejected=[{'program': reps[r['hist']].prog, 'schedule': reps[r['hist']].sched, 'line': r['line'],
+                              'event': hists[r['hist']][r['line']] if r['line'] < len(hists[r['hist']]) else None} for r in rej[:5]])
+    json.dump(res, open(cp, 'w'))
+    return res
+
+
+def id_model_check(n, order, tier, want):
+    bdir = vlib.build(n)
+    q = tier == 'quick'
+    workers = {1: (3, 2), 2: (4, 1), 3: (4, 1) if q else (5, 1)}[n]
+    invs = [i for i in ('UniqueIDs', 'InRange', 'HBUnique', 'HBAlive', 'HBDead', 'FlagsOK', 'FreeAtEnd', 'NoDeadlock') if i in want]
+    props = [i for i in ('GetsID', 'Termination') if i in want]
+    key = 'idmc|%s|%d|%s|%s|%s|%s' % (os.path.basename(bdir), n, order, tier, _spec_hash(), ','.join(invs + props))
+    cp = _cache_path('idmc', key)
+    if os.path.exists(cp):
+        return json.load(open(cp))
+    t0 = time.time()
+    r = vlib.model_check('IdImpl', 'id_n%d' % n, {'Workers': set(range(1, workers[0] + 1)), 'N': n, 'ExitOrder': '"%s"' % order,
+                                                   'MaxGen': workers[1]}, [], invariants=invs, properties=props,
+                         spec='FairSpec' if props else 'Spec', workers=12, heap='8g', timeout=1700 if q else 7000,
+                         workdir=os.path.join(OUT, 'work', 'mc'))
+    if not r['ok'] and not r['violated']:
+        raise InfraError('IdImpl model checking did not complete: ' + r['out'][-2000:])
+    res = {'tag': 'N=%d workers=%d generations=%d' % (n, workers[0], workers[1]), 'ok': r['ok'], 'violated': r['violated'],
+           'states': r['distinct'], 'transitions': r['states'], 'wall': round(time.time() - t0, 1), 'invariants': invs,
+           'properties': props, 'exit_order': order}
+    json.dump(res, open(cp, 'w'))
+    return res
